@@ -15,6 +15,10 @@ def make_doc(size, poison=False):
     from prov.model import ProvDocument
     d = ProvDocument()
     d.add_namespace("ex", "http://example.org/ns/")
+    if size < 0:
+        # a document dominated by multi-byte characters: its UTF-8 length is far from its length in characters
+        d.entity("ex:dense", {"ex:note": "漢é" * (-size), "ex:n": size})
+        size = 1
     for i in range(size):
         e = d.entity("ex:e%d" % i, {"ex:note": "entité numéro %d — 漢字 %s" % (i, "x" * 40), "ex:n": i})
         a = d.activity("ex:a%d" % i, datetime.datetime(2012, 1, 1, 0, 0, i % 60))
